@@ -33,3 +33,29 @@ def check_literal_keywords(ctx, rule: str, scope=None) -> None:
                                  f"`{short(c)}` passes {kw.arg}={short(kw.value)} outside transform_joined_str: the value is emitted as a stand-alone literal, where this option changes the text it denotes (doubled braces, `${{` handling) or drops its quotes",
                                  construct=f"{f.qualname}: {kw.arg} on a stand-alone literal")
     ctx.require_anchor(n >= 4 or scope is not None, "the interpolation-only keywords are used by the transform_joined_str methods")
+
+
+def check_enclosing_agreement(ctx, rule: str) -> None:
+    """A literal function that picks its delimiter from the text (python: fewer escapes) must be told the delimiter when the caller
+    writes the quotes itself (``without_enclosing=True``): otherwise each part is escaped for its own best delimiter, not for the one
+    that encloses the joined text, and a quote of the enclosing kind stays unescaped."""
+    n = 0
+    for f in ctx.p.all_functions():
+        for c in ast.walk(f.node):
+            if not (isinstance(c, ast.Call) and (dotted_of(c.func) or "").split(".")[-1].endswith("string_literal")):
+                continue
+            r = ctx.p.resolve_expr(f.module, c.func)
+            if r is None or r[0] != "func" or "quoting" not in r[1].param_names():
+                continue
+            kws = {k.arg: k.value for k in c.keywords}
+            we = kws.get("without_enclosing")
+            if we is None or (isinstance(we, ast.Constant) and we.value is False):
+                continue
+            n += 1
+            q = kws.get("quoting")
+            what = f"{f.module.relpath.split('aas_core_codegen/')[-1]} {f.qualname}: without_enclosing comes with an explicit quoting"
+            if q is None or (isinstance(q, ast.Constant) and q.value is None):
+                ctx.fail(rule, f, c, f"`{short(c)}` omits the enclosing quotes but leaves the choice of the escaping table to the literal function (no `quoting=`): the table is chosen per part from its own quote counts, so a part can leave the quote character unescaped that the caller then uses to enclose the joined text", construct=what)
+            else:
+                ctx.ok(rule, f, c, what=what)
+    ctx.require_anchor(n >= 2, "literal parts emitted without enclosing quotes (python f-strings)")
